@@ -366,7 +366,9 @@ def sp_op(proj, ch, lab, _files):
     ftyp, _ = td("ft")
     kwtyp, kwdef = td("kt")
     evalname = "CHOICES"
-    consts = "%s = ('p', 'q', 'r')\nmodule_attr: %s = %s" % (evalname, ctyp, cdef)
+    # a second evaluable name that only some versions of the input module define
+    with_extra = ch.chance(lab + ".extra", 0.5)
+    consts = "%s = ('p', 'q', 'r')\n%smodule_attr: %s = %s" % (evalname, "EXTRA = ('u', 'v')\n" if with_extra else "", ctyp, cdef)
     inp = SP_INPUT.format(consts=consts, cattr=cattr, ctyp=ctyp, cdef=cdef, marg=marg, mtyp=mtyp, mdef=mdef, farg=farg, ftyp=ftyp,
                           kwarg=kwarg, kwtyp=kwtyp, kwdef=kwdef)
     outp = SP_OUTPUT.format(oconst=oconst, oarg=oarg, oattr=oattr, omarg=omarg, okw=okw, okw2=okw2)
@@ -379,6 +381,8 @@ def sp_op(proj, ch, lab, _files):
     npairs = ch.weighted(lab + ".npairs", [(1, 5), (2, 3), (3, 2)])
     pairs = []
     outs = ch.sample(lab + ".outs", out_addrs, npairs)
+    if ev and ch.chance(lab + ".useextra", 0.4):
+        evalname = "EXTRA"  # resolves only if this version of the input module defines it
     landed = set()
     steer = ch.chance(lab + ".steer", 0.9)  # keep away from the triggers of the open findings F11-F13 (DESIGN §7.2)
     stmt_outs = {oconst, "Target." + oattr}
@@ -602,6 +606,7 @@ def other_table_rows(proj):
     cls, fn = proj.by_kind["class"][0], proj.by_kind["function"][0]
     for rel in (cls, fn):
         ops.append({"op": "env", "path": rel, "text": proj.text(rel), "label": "table_setup"})
+    ops.append({"op": "env", "path": "tablemod.py", "text": GEN_INPUT.format(imports="import os", mapping="{'Alpha': Alpha}"), "label": "table_setup"})
     for inp_ok in (True, False):
         for out_ok in (True, False):
             for equal in (True, False):
@@ -617,4 +622,10 @@ def other_table_rows(proj):
     for typ in ("class", "function", "argparse"):
         ops.append({"op": "cli", "argv": ["gen", "--name-tpl", "{name}Config", "--input-mapping", "os.environ", "--type", typ, "--output-filename", W + cls],
                     "expect": "reject", "why": "gen onto existing output type=%s" % typ, "files": [cls]})
+        # the same existing file spelled with an unexpanded ~ (quoted on the shell, or --output-filename=~/x.py) and relative to
+        # the working directory: whatever gen makes of the spelling, the existing file must not be altered
+        for spelling in ("~/" + cls, cls, "./" + cls):
+            ops.append({"op": "cli", "argv": ["gen", "--name-tpl", "{name}Config", "--input-mapping", "tablemod.MAPPING", "--type", typ, "--output-filename", spelling],
+                        "expect": "untouched", "why": "gen onto existing output spelled %r type=%s" % (spelling.replace(cls, "<f>"), typ), "files": [cls],
+                        "home_world": True, "cwd_world": True, "path_world": True})
     return ops
